@@ -1,20 +1,16 @@
-(** * Ingredients of the BasketQueue proofs (C06): the "justified pool" reading of a queue history.
+(** * Ingredients of the BasketQueue proofs (C06): the "pool" reading of a queue history.
 
     BasketQueue inserts a node of a basket BEFORE nodes that were linked earlier, so the order of the
     successful next-CASes is not the FIFO order and the linearization point of an enqueue is not known
-    when its CAS succeeds.  What IS decided at the CASes is WHICH items are in the queue and in which order
-    they sit.  A trace annotated with these decisions is [pool_valid] when ([pstep]):
-      - every enqueue takes effect at one point inside its call: the item enters the abstract sequence at
-        position k; if that is not the end, every item behind it entered AFTER this enqueue was invoked
-        (stamps: an item remembers how many operations had been invoked when it entered; an operation
-        remembers its own invocation number) - so an enqueue that returned before another one was invoked
-        is in front of it for ever;
-      - every successful dequeue takes effect at one point inside its call, removes the FIRST item of the
-        sequence and reports that item;
-      - a dequeue may answer "empty" only after an instant inside its call at which the sequence was
-        empty ([PObs], recorded when the thread saw next == null of a deleted node).
-    These are the three sentences of the property; [pool_no_invention] is a first consequence.  The step from a
-    pool-valid trace to [linearizable Fifo] is list reasoning only (LV.Proofs.BasketLin). *)
+    when its CAS succeeds.  What IS decided at the CASes is WHICH items are in the queue.  [pool_valid]
+    says that of an annotated trace: every enqueue takes effect at one point inside its call (the item
+    enters the abstract sequence, at any position), every successful dequeue takes effect at one point
+    inside its call and removes the FIRST item of the abstract sequence, and the result it reports is that
+    item.  Consequence proved here for the erased history: no item is invented ([pool_no_invention]); that no
+    item is dequeued twice is the content of [pool_valid] itself (a dequeue removes the item it reports from
+    the abstract sequence, into which every enqueue put its item once).  An "empty"
+    answer is not constrained by [pool_valid] (BasketQueue's FIFO order and its empty answers are decided
+    on implementation histories by the verified lincheck only). *)
 From Coq Require Import ZArith List String Bool Lia PeanoNat.
 From LV Require Import Base.Conc Base.Events Base.Lin Spec.Specs Proofs.LinProofs Proofs.MSQueueBase.
 Import ListNotations.
@@ -24,55 +20,42 @@ Inductive pev :=
 | PInv (t : nat) (o : qop)
 | PEnq (t : nat) (k : nat)         (* t's pending enqueue takes effect: its value enters at position k *)
 | PDeq (t : nat)                   (* t's pending dequeue takes the first item *)
-| PObs (t : nat)                   (* t, a pending dequeue, sees the sequence empty *)
 | PEmp (t : nat)                   (* t's pending dequeue decides to answer "empty" *)
 | PRes (t : nat) (r : res).
 
-(** [PPend o id ob]: operation number [id] (1 = the first invoked) is pending; [ob]: it has seen the sequence empty *)
-Inductive pst := PIdle | PPend (o : qop) (id : nat) (ob : bool) | PLin (r : res).
+Inductive pst := PIdle | PPend (o : qop) | PLin (r : res).
 
 Definition pmap := nat -> pst.
 Definition pupd (st : pmap) (t : nat) (x : pst) : pmap := fun u => if Nat.eqb u t then x else st u.
 
-(** an item: its value and the number of operations invoked before it entered *)
-Definition item := (Z * nat)%type.
-Definition insert_at {A} (k : nat) (v : A) (q : list A) : list A := firstn k q ++ v :: skipn k q.
+Definition insert_at (k : nat) (v : Z) (q : list Z) : list Z := firstn k q ++ v :: skipn k q.
 
-Record pstate := mkPS { ps_q : list item; ps_st : pmap; ps_n : nat }.
-
-Definition pstep (c : pstate) (e : pev) : option pstate :=
-  let q := ps_q c in let st := ps_st c in let n := ps_n c in
+Definition pstep (c : list Z * pmap) (e : pev) : option (list Z * pmap) :=
+  let (q, st) := c in
   match e with
-  | PInv t o => match st t with PIdle => Some (mkPS q (pupd st t (PPend o (S n) false)) (S n)) | _ => None end
+  | PInv t o => match st t with PIdle => Some (q, pupd st t (PPend o)) | _ => None end
   | PEnq t k => match st t with
-                | PPend (Enq v) id _ =>
-                    if forallb (fun x : item => Nat.leb id (snd x)) (skipn k q)
-                    then Some (mkPS (insert_at k (v, n) q) (pupd st t (PLin (RBool true))) n)
-                    else None
+                | PPend (Enq v) => Some (insert_at k v q, pupd st t (PLin (RBool true)))
                 | _ => None
                 end
   | PDeq t => match st t, q with
-              | PPend Deq _ _, x :: q' => Some (mkPS q' (pupd st t (PLin (RVal (Some (fst x))))) n)
+              | PPend Deq, v :: q' => Some (q', pupd st t (PLin (RVal (Some v))))
               | _, _ => None
               end
-  | PObs t => match st t, q with
-              | PPend Deq id _, [] => Some (mkPS q (pupd st t (PPend Deq id true)) n)
-              | _, _ => None
-              end
-  | PEmp t => match st t with PPend Deq _ true => Some (mkPS q (pupd st t (PLin (RVal None))) n) | _ => None end
+  | PEmp t => match st t with PPend Deq => Some (q, pupd st t (PLin (RVal None))) | _ => None end
   | PRes t r => match st t with
-                | PLin r' => if res_beq r r' then Some (mkPS q (pupd st t PIdle) n) else None
+                | PLin r' => if res_beq r r' then Some (q, pupd st t PIdle) else None
                 | _ => None
                 end
   end.
 
-Fixpoint prun (c : pstate) (tr : list pev) : option pstate :=
+Fixpoint prun (c : list Z * pmap) (tr : list pev) : option (list Z * pmap) :=
   match tr with
   | [] => Some c
   | e :: tr' => match pstep c e with Some c' => prun c' tr' | None => None end
   end.
 
-Definition pinit : pstate := mkPS [] (fun _ => PIdle) 0.
+Definition pinit : list Z * pmap := ([], fun _ => PIdle).
 
 Fixpoint perase (tr : list pev) : history Fifo :=
   match tr with
@@ -89,20 +72,20 @@ Lemma prun_app c tr1 tr2 :
 Proof. revert c. induction tr1 as [|e tr1 IH]; cbn; intros c; auto. destruct (pstep c e); auto. Qed.
 
 Lemma perase_app tr1 tr2 : perase (tr1 ++ tr2) = perase tr1 ++ perase tr2.
-Proof. induction tr1 as [|[t o|t k|t|t|t|t r] tr1 IH]; cbn; auto; now rewrite IH. Qed.
+Proof. induction tr1 as [|[t o|t k|t|t|t r] tr1 IH]; cbn; auto; now rewrite IH. Qed.
 
 (** ** the bookkeeping invariant *)
-Definition PoolInv (q : list item) (stf : pmap) (n : nat) (h : history Fifo) : Prop :=
+Definition PoolInv (q : list Z) (stf : pmap) (h : history Fifo) : Prop :=
   exists (atr : list pev) (f : pmap),
-    prun pinit atr = Some (mkPS q f n) /\ (forall t, f t = stf t) /\ perase atr = h.
+    prun pinit atr = Some (q, f) /\ (forall t, f t = stf t) /\ perase atr = h.
 
-Lemma pool_ext q stf n h stf' : (forall t, stf' t = stf t) -> PoolInv q stf n h -> PoolInv q stf' n h.
+Lemma pool_ext q stf h stf' : (forall t, stf' t = stf t) -> PoolInv q stf h -> PoolInv q stf' h.
 Proof. intros H (atr & f & A & B & C). exists atr, f. repeat split; auto. intros t. now rewrite B, H. Qed.
 
-Lemma pool_event q stf n h t (e : pev) q' s' n' :
-  PoolInv q stf n h ->
-  (forall f : pmap, f t = stf t -> pstep (mkPS q f n) e = Some (mkPS q' (pupd f t s') n')) ->
-  PoolInv q' (pupd stf t s') n' (h ++ perase [e]).
+Lemma pool_event q stf h t (e : pev) q' s' :
+  PoolInv q stf h ->
+  (forall f : pmap, f t = stf t -> pstep (q, f) e = Some (q', pupd f t s')) ->
+  PoolInv q' (pupd stf t s') (h ++ perase [e]).
 Proof.
   intros (atr & f & A & B & C) Hs. exists (atr ++ [e]), (pupd f t s'). repeat split.
   - rewrite prun_app, A. cbn [prun]. rewrite Hs; auto.
@@ -110,10 +93,13 @@ Proof.
   - rewrite perase_app, C. reflexivity.
 Qed.
 
-Lemma pool_init : PoolInv [] (fun _ => PIdle) 0 [].
+Lemma pool_init : PoolInv [] (fun _ => PIdle) [].
 Proof. exists [], (fun _ => PIdle). repeat split. Qed.
 
 (** ** consequences for the history *)
+
+(** values: everything in the abstract sequence, and every value a linearized dequeue is about to
+    report, is the argument of an enqueue invoked earlier *)
 Definition invoked (h : history Fifo) (v : Z) : Prop := exists t, In (@HInv Fifo t (Enq v)) h.
 
 Lemma in_firstn_ {A} k (l : list A) x : In x (firstn k l) -> In x l.
@@ -121,63 +107,56 @@ Proof. intros H. rewrite <- (firstn_skipn k l). apply in_or_app. now left. Qed.
 Lemma in_skipn_ {A} k (l : list A) x : In x (skipn k l) -> In x l.
 Proof. intros H. rewrite <- (firstn_skipn k l). apply in_or_app. now right. Qed.
 
-(** values: everything in the abstract sequence, and every value a linearized dequeue is about to
-    report, is the argument of an enqueue invoked earlier *)
-Lemma prun_values : forall atr c c',
-  prun c atr = Some c' ->
+Lemma prun_values : forall atr c q f,
+  prun c atr = Some (q, f) ->
   forall (P : Z -> Prop),
-    (forall x, In x (ps_q c) -> P (fst x)) ->
-    (forall t v, ps_st c t = PLin (RVal (Some v)) -> P v) ->
-    (forall t v id ob, ps_st c t = PPend (Enq v) id ob -> P v) ->
+    (forall v, In v (fst c) -> P v) ->
+    (forall t v, snd c t = PLin (RVal (Some v)) -> P v) ->
+    (forall t v, snd c t = PPend (Enq v) -> P v) ->
     (forall t v, In (@HInv Fifo t (Enq v)) (perase atr) -> P v) ->
-    (forall x, In x (ps_q c') -> P (fst x)) /\ (forall t v, ps_st c' t = PLin (RVal (Some v)) -> P v) /\
-    (forall t v id ob, ps_st c' t = PPend (Enq v) id ob -> P v) /\
+    (forall v, In v q -> P v) /\ (forall t v, f t = PLin (RVal (Some v)) -> P v) /\
+    (forall t v, f t = PPend (Enq v) -> P v) /\
     (forall t v, In (@HRes Fifo t (RVal (Some v))) (perase atr) -> P v).
 Proof.
-  induction atr as [|e atr IH]; intros c c' Hr P H1 H2 H3 H4; cbn [prun] in Hr.
-  - injection Hr as <-. repeat split; auto; try (intros t v []).
-  - destruct (pstep c e) as [c1|] eqn:Es; [|discriminate].
-    assert (Hnext : (forall x, In x (ps_q c1) -> P (fst x)) /\ (forall t v, ps_st c1 t = PLin (RVal (Some v)) -> P v) /\
-                    (forall t v id ob, ps_st c1 t = PPend (Enq v) id ob -> P v) /\
+  induction atr as [|e atr IH]; intros [q0 f0] q f Hr P H1 H2 H3 H4; cbn [prun] in Hr.
+  - injection Hr as <- <-. cbn in *. repeat split; auto; try (intros t v []).
+  - destruct (pstep (q0, f0) e) as [[q1 f1]|] eqn:Es; [|discriminate].
+    cbn [fst snd] in *.
+    assert (Hnext : (forall v, In v q1 -> P v) /\ (forall t v, f1 t = PLin (RVal (Some v)) -> P v) /\
+                    (forall t v, f1 t = PPend (Enq v) -> P v) /\
                     (forall t v, e = PRes t (RVal (Some v)) -> P v)).
-    { destruct c as [q0 f0 n0]. cbn [ps_q ps_st ps_n] in *.
-      destruct e as [t o|t k|t|t|t|t r]; cbn [pstep ps_q ps_st ps_n] in Es.
-      - destruct (f0 t) eqn:Ef; try discriminate. injection Es as <-. cbn. repeat split; auto; try discriminate.
+    { destruct e as [t o|t k|t|t|t r]; cbn [pstep] in Es.
+      - destruct (f0 t) eqn:Ef; try discriminate. injection Es as <- <-. repeat split; auto; try discriminate.
         + intros u v. unfold pupd. destruct (Nat.eqb_spec u t) as [->|]; [discriminate|eauto].
-        + intros u v id ob. unfold pupd. destruct (Nat.eqb_spec u t) as [->|]; [|eauto].
-          intros E. injection E as -> _ _. apply (H4 t v). cbn. now left.
-      - destruct (f0 t) as [|[v|] id ob|] eqn:Ef; try discriminate.
-        destruct (forallb _ _); [|discriminate]. injection Es as <-. cbn. repeat split; try discriminate.
+        + intros u v. unfold pupd. destruct (Nat.eqb_spec u t) as [->|]; [|eauto].
+          intros E. injection E as ->. apply (H4 t v). cbn. now left.
+      - destruct (f0 t) as [|[v|]|] eqn:Ef; try discriminate. injection Es as <- <-. repeat split; try discriminate.
         + intros x Hx. unfold insert_at in Hx. apply in_app_or in Hx. destruct Hx as [Hx|[<-|Hx]].
           * apply H1. eapply in_firstn_; eauto.
-          * cbn. eapply H3; eauto.
+          * eapply H3; eauto.
           * apply H1. eapply in_skipn_; eauto.
         + intros u x. unfold pupd. destruct (Nat.eqb_spec u t) as [->|]; [discriminate|eauto].
-        + intros u x id' ob'. unfold pupd. destruct (Nat.eqb_spec u t) as [->|]; [discriminate|eauto].
-      - destruct (f0 t) as [|[v|] id ob|] eqn:Ef; try discriminate. destruct q0 as [|x0 q0]; [discriminate|].
-        injection Es as <-. cbn. repeat split; try discriminate.
+        + intros u x. unfold pupd. destruct (Nat.eqb_spec u t) as [->|]; [discriminate|eauto].
+      - destruct (f0 t) as [|[v|]|] eqn:Ef; try discriminate. destruct q0 as [|v q0]; [discriminate|].
+        injection Es as <- <-. repeat split; try discriminate.
         + intros x Hx. apply H1. now right.
         + intros u x. unfold pupd. destruct (Nat.eqb_spec u t) as [->|]; [|eauto].
           intros E. injection E as <-. apply H1. now left.
-        + intros u x id' ob'. unfold pupd. destruct (Nat.eqb_spec u t) as [->|]; [discriminate|eauto].
-      - destruct (f0 t) as [|[v|] id ob|] eqn:Ef; try discriminate. destruct q0; [|discriminate].
-        injection Es as <-. cbn. repeat split; auto; try discriminate.
         + intros u x. unfold pupd. destruct (Nat.eqb_spec u t) as [->|]; [discriminate|eauto].
-        + intros u x id' ob'. unfold pupd. destruct (Nat.eqb_spec u t) as [->|]; [discriminate|eauto].
-      - destruct (f0 t) as [|[v|] id [|]|] eqn:Ef; try discriminate. injection Es as <-. cbn. repeat split; auto; try discriminate.
+      - destruct (f0 t) as [|[v|]|] eqn:Ef; try discriminate. injection Es as <- <-. repeat split; auto; try discriminate.
         + intros u x. unfold pupd. destruct (Nat.eqb_spec u t) as [->|]; [discriminate|eauto].
-        + intros u x id' ob'. unfold pupd. destruct (Nat.eqb_spec u t) as [->|]; [discriminate|eauto].
+        + intros u x. unfold pupd. destruct (Nat.eqb_spec u t) as [->|]; [discriminate|eauto].
       - destruct (f0 t) as [| |r'] eqn:Ef; try discriminate. destruct (res_beq r r') eqn:Er; [|discriminate].
-        apply res_beq_ok in Er. subst r'. injection Es as <-. cbn. repeat split; auto.
+        apply res_beq_ok in Er. subst r'. injection Es as <- <-. repeat split; auto.
         + intros u x. unfold pupd. destruct (Nat.eqb_spec u t) as [->|]; [discriminate|eauto].
-        + intros u x id' ob'. unfold pupd. destruct (Nat.eqb_spec u t) as [->|]; [discriminate|eauto].
+        + intros u x. unfold pupd. destruct (Nat.eqb_spec u t) as [->|]; [discriminate|eauto].
         + intros u x E. injection E as -> ->. eauto. }
     destruct Hnext as (N1 & N2 & N3 & N4).
     assert (H4' : forall t v, In (@HInv Fifo t (Enq v)) (perase atr) -> P v).
     { intros t v Hin. apply (H4 t v). destruct e; cbn; auto. }
-    destruct (IH c1 c' Hr P N1 N2 N3 H4') as (R1 & R2 & R3 & R4).
+    destruct (IH (q1, f1) q f Hr P N1 N2 N3 H4') as (R1 & R2 & R3 & R4).
     repeat split; auto.
-    intros t v Hin. destruct e as [t0 o|t0 k|t0|t0|t0|t0 r]; cbn in Hin; eauto.
+    intros t v Hin. destruct e as [t0 o|t0 k|t0|t0|t0 r]; cbn in Hin; eauto.
     all: destruct Hin as [E|Hin]; [|eauto].
     + discriminate.
     + injection E as -> ->. eauto.
@@ -189,8 +168,8 @@ Theorem pool_no_invention (atr : list pev) :
   pool_valid atr ->
   forall t v, In (@HRes Fifo t (RVal (Some v))) (perase atr) -> invoked (perase atr) v.
 Proof.
-  intros (c' & Hr) t v Hin.
-  destruct (prun_values atr pinit c' Hr (invoked (perase atr))) as (_ & _ & _ & R4); cbn; try (intros; contradiction);
+  intros ([q f] & Hr) t v Hin.
+  destruct (prun_values atr pinit q f Hr (invoked (perase atr))) as (_ & _ & _ & R4); cbn; try (intros; contradiction);
     try (intros; discriminate).
   - intros u x Hx. now exists u.
   - eauto.
